@@ -64,9 +64,14 @@ def run_cell(args):
             ctx = holder[0]
             st = rec["status"]
             if st == "abort":
+                # obligations refuted before the path became infeasible still count
+                _replay_candidates(res, seen_labels, ctx, mod, orc, hname, cell, otime)
+                res["classes"] |= ctx.classes
                 continue
             res["classes"] |= ctx.classes
             res["unknowns"] += len(ctx.unknowns)
+            if st != "ok":
+                _replay_candidates(res, seen_labels, ctx, mod, orc, hname, cell, otime)
             if st == "harness_exc":
                 e = rec["exc"]
                 res["engine"].append("harness exception %s: %s\n%s" % (
@@ -128,21 +133,7 @@ def run_cell(args):
                     # any concrete failure on the path's own witness is a confirmed violation
                     for lab, det in r.get("failed", []):
                         _cand(res, seen_labels, lab, det, inputs, r, confirmed=True)
-            for lab, det, cin in ctx.candidates:
-                n = seen_labels.get(lab, 0)
-                if n >= MAX_REPLAYS_PER_LABEL:
-                    continue
-                r = orc.call(hname, cell, cin, otime)
-                labs = [f[0] for f in r.get("failed", [])]
-                if lab in labs:
-                    d2 = [f[1] for f in r["failed"] if f[0] == lab][0]
-                    _cand(res, seen_labels, lab, d2 if d2 is not None else det, cin, r, confirmed=True)
-                elif r["status"] == "timeout":
-                    _cand(res, seen_labels, getattr(mod, "DIVERGE_LABEL", "non-termination"),
-                          det, cin, r, confirmed=True)
-                else:
-                    res["spurious"].append({"label": lab, "inputs": cin, "detail": det,
-                                            "oracle": r})
+            _replay_candidates(res, seen_labels, ctx, mod, orc, hname, cell, otime)
     except core.EngineError as e:
         res["engine"].append("engine: %s" % e)
         res["exhaustive"] = False
@@ -154,6 +145,23 @@ def run_cell(args):
     res["wall"] = time.time() - t0
     res["oracle_calls"] = orc.calls
     return res
+
+
+def _replay_candidates(res, seen_labels, ctx, mod, orc, hname, cell, otime):
+    for lab, det, cin in ctx.candidates:
+        n = seen_labels.get(lab, 0)
+        if n >= MAX_REPLAYS_PER_LABEL:
+            continue
+        r = orc.call(hname, cell, cin, otime)
+        labs = [f[0] for f in r.get("failed", [])]
+        if lab in labs:
+            d2 = [f[1] for f in r["failed"] if f[0] == lab][0]
+            _cand(res, seen_labels, lab, d2 if d2 is not None else det, cin, r, confirmed=True)
+        elif r["status"] == "timeout":
+            _cand(res, seen_labels, getattr(mod, "DIVERGE_LABEL", "non-termination"),
+                  det, cin, r, confirmed=True)
+        else:
+            res["spurious"].append({"label": lab, "inputs": cin, "detail": det, "oracle": r})
 
 
 def _cand(res, seen, label, detail, inputs, r, confirmed):
@@ -276,6 +284,9 @@ def report(pid, mod, a, seed, cells, results, wall):
             len(unsupported), tol, unsupported[0]))
     if stats.unknown:
         problems.append("%d solver queries returned unknown" % stats.unknown)
+    if stats.obligations != stats.discharged and not (violations or spurious or unknowns):
+        problems.append("%d obligations neither discharged nor reported" % (
+            stats.obligations - stats.discharged))
     for pmsg in problems:
         print("ENGINE: " + pmsg)
     if problems and rc == EXIT_OK:
